@@ -358,9 +358,13 @@ class _ConsoleSys:
 
 def run_project(project, strategy="off", gate_seed=0, interrupt_at=None, backend_fault=None, watchdog=30.0,
                 gate_watchdog=10.0, stall=8.0, builder=None, console=True, listeners=None, file_backends=None,
-                saving=None):
+                saving=None, start_gates=False):
     """
     strategy      "off" | "fifo" | "lifo" | "random"   gate controller (obs.schedrec)
+    start_gates   every task (of ANY kind: suite beginning / setup / test / teardown / end …) is held at a gate by the worker that took
+                  it, BEFORE anything of it runs: the gate strategy then chooses the order in which tasks dispatched in one batch
+                  start (e.g. "lifo": the one dispatched last starts first) — two tasks that the graph does not order really run in
+                  both orders, so a dependency edge missing from the graph shows as a failing run; needs a gate strategy
     interrupt_at  None | ["get", k]                    KeyboardInterrupt instead of the k-th blocking completed-queue get
                   | ["quiescent", k]                   KeyboardInterrupt at the k-th quiescent point of the gate controller (all
                                                        in-flight tasks held at gates, dispatcher waiting); needs a gate strategy
@@ -390,6 +394,8 @@ def run_project(project, strategy="off", gate_seed=0, interrupt_at=None, backend
     # flight and nobody held at a gate, is a worker that is stuck (a hang is then reported after `stall`, not after
     # the whole-run watchdog)
     rec.stall_seconds = stall
+    if start_gates and strategy != "off":
+        rec.start_gate = lambda task: ["task-start", rec.tid(task)]
     namer = ThreadNamer(rec.lock)
     rec.thread_namer = lambda: namer("worker")
     ctx.rec, ctx.namer, ctx.fault = rec, namer, backend_fault
